@@ -1,0 +1,7 @@
+//! Verification hooks (only compiled with `--cfg litep2p_verif`).
+//!
+//! Nothing in this module is part of the shipped crate: the module is declared in `lib.rs`
+//! under `#[cfg(litep2p_verif)]`. It contains the seams a deterministic simulator needs
+//! (socket layer, timer) and re-exports of crate-private items for component-level harnesses.
+
+pub mod net;
